@@ -729,25 +729,42 @@ reg(Spec(
           "zero; oracle: c attains the prescribed values at both ends (1e-9 "
           "* scale), scaling D by 2 and 3 changes c by <= 1e-6 * scale on "
           "every grid point and 4 raster points per interval, constant D gives "
-          "the straight line (1e-9 * scale). Spline potential: x^2/2 and "
+          "the straight line (1e-9 * scale), c(s,e) = s*c(1,0) + e*c(0,1) and "
+          "the mirrored problem (reflected grid and coefficient, swapped "
+          "boundary values) gives the mirrored solution (1e-6 * scale); a "
+          "coefficient given on a window of the grid is either refused with "
+          "BSplineException or solved. Spline potential: x^2/2 and "
           "cosh-type potentials interpolated on 21..56 points, random cubic "
           "splines on the whole grid and supported only on the middle half; "
           "oracle: the ten eigenvalues of v+c equal those of v plus c "
-          "(1e-9 relative). Harmonic oscillator and hydrogen: n+1/2 and "
+          "(1e-9 relative) for shifts from 0.125 to 25 000, the spectrum of "
+          "the mirrored random potential equals the original one (1e-8), random "
+          "potentials also on grids centred up to 200 away from the origin, and "
+          "the three lowest states of the interpolated x^2/2 on a uniform "
+          "domain of half width >= 5 are 1/2, 3/2, 5/2 within 2e-2. Harmonic "
+          "oscillator and hydrogen: n+1/2 and "
           "-1/n^2 with the suite's tolerances (1e-12, 5e-12). Distinct by "
           "full input."),
     required=["diffusion:solves", "diffusion:constant-D",
               "diffusion:piecewise-D", "diffusion:nonzero-end-value",
               "diffusion:straight-line-checked", "diffusion:points:2",
               "diffusion:points:11", "diffusion:points:40",
-              "potential:shift-checked", "potential:interpolated",
+              "potential:shift-checked", "potential:mirror-checked",
+              "potential:harmonic-spectrum-compared",
+              "potential:off-centre-grid", "potential:interpolated",
               "potential:partial-support", "potential:random-whole-grid",
               "harmonic-oscillator:solves", "hydrogen:solves"],
     assumptions=["tolerances are metamorphic (solution against solution) and "
                  "calibrated: largest deviations observed on the unchanged "
                  "tree over 13 000 diffusion and 2 800 potential cases are "
                  "5e-13 (boundary), 2.7e-11 (scaling, heavy-tailed), 6.4e-13 "
-                 "(straight line), 6.5e-14 (eigenvalue shift)", "the spline-potential "
+                 "(straight line), 6.5e-14 (eigenvalue shift), 2.6e-12 "
+                 "(linearity), 1.2e-11 (diffusion mirror), 1.6e-12 (potential "
+                 "mirror), 6.5e-3 (harmonic low states)", "agreement with the "
+                 "solution of the continuous diffusion problem is not judged: "
+                 "with jumps of 1000x the smooth order-10 basis deviates from "
+                 "the kinked exact solution by up to 0.8 |end-start| on the "
+                 "unchanged tree", "the spline-potential "
                  "solver returns ten states and therefore needs at least 21 "
                  "grid points", "accuracy against the continuous solution is "
                  "not demanded"],
